@@ -114,7 +114,15 @@ impl<T: Corpus + 'static> TypeOps for Ops<T> {
                     de.done().map_err(|e| format!("{e:?}"))?;
                     (v, None)
                 }
-                (_, Some(cfg)) => {
+                (Api::Args, Some(cfg)) => {
+                    let ((v,), c): ((T,), _) = candid::utils::decode_args_with_config_debug(bytes, cfg).map_err(|e| format!("{e:?}"))?;
+                    (v, Some((c.decoding_quota, c.skipping_quota)))
+                }
+                (Api::Macros, Some(cfg)) => {
+                    let (v, c): (T, _) = Decode!(@Debug [cfg.clone()]; bytes, T).map_err(|e| format!("{e:?}"))?;
+                    (v, Some((c.decoding_quota, c.skipping_quota)))
+                }
+                (Api::Builder, Some(cfg)) => {
                     let mut de = IDLDeserialize::new_with_config(bytes, cfg).map_err(|e| format!("{e:?}"))?;
                     let v = de.get_value::<T>().map_err(|e| format!("{e:?}"))?;
                     de.done().map_err(|e| format!("{e:?}"))?;
